@@ -108,3 +108,12 @@ Definition equiv_ready (m : mapping) (w : world) (v : view) (acts : list gaction
   inj_on (mip m) (play_universe w v acts) && inj_on (mnet m) (dom (w_nets w)) &&
   forallb (scan_faithful m w) acts.
 
+
+(* start positions read through a re-labelling (Proofs/InitEquiv.v) *)
+Definition map_sh (m : mapping) (s : start_host) : start_host :=
+  match s with SHost i => SHost (mip m i) | SRandom => SRandom | SAllLocal => SAllLocal end.
+Definition map_sp (m : mapping) (sp : start_pos) : start_pos :=
+  {| sp_nets := map (mnet m) (sp_nets sp); sp_hosts := map (mip m) (sp_hosts sp); sp_ctrl := map (map_sh m) (sp_ctrl sp);
+     sp_svcs := map (fun kv => (mip m (fst kv), snd kv)) (sp_svcs sp);
+     sp_data := map (fun kv => (mip m (fst kv), snd kv)) (sp_data sp) |}.
+
